@@ -12,12 +12,12 @@
    (under (?U) the emitted `?` is non-greedy, under (?i) two literals can overlap: both refuted).
    Factoring instances, precisely (leftmost-first semantics, positions and captures):
      y|x  with y = x t  (longer first)   => x t?    sound            (factor_prefix_longer_first)
-     x|y  with y = x t  (shorter first)  => x t?    UNSOUND, always  (prefix_shorter_first_refuted_all)
+     x|y  with y = x t  (shorter first)  => x t?    UNSOUND, always  (alt_prefix_order_refuted: fo|foo on "foo"; on subject x t the two always differ)
      h x|x              (longer first)   => h? x    sound            (factor_suffix_longer_first)
      x|h x             (shorter first)  => h? x    sound when x does not start with h (proved here);
                                                      when x starts with h and no folding is in effect it is
                                                      sound as well but left to the certificate; under (?i)
-                                                     it is unsound: (?i:aA|aaA) => (?i:a?aA) on "aaa". *)
+                                                     it is unsound: (?i:aA|aaA) => (?i:a?aA) on "aaa" (suffix_factoring_under_fold_refuted). *)
 From GC Require Import Base Model_Regex Model_RegexSimplify Proofs_Regex Proofs_RegexRules Proofs_RegexWalk.
 Local Open Scope nat_scope.
 
@@ -1185,3 +1185,13 @@ Example examples_S :
   pass_ok ex_capture_factor = true /\ simp_text ex_capture_factor = "(foo?)(?P<n>a)x" /\
   pass_ok ex_flag_group = true /\ simp_text ex_flag_group = "(?i:kb+)(c) {3}".
 Proof. repeat split; vm_compute; reflexivity. Qed.
+
+(* x|hx => h?x under (?i): the two literals overlap although their texts differ *)
+Definition t_suffix_fold :=
+  X OpGroupWithFlags "(?i:aA|aaA)"
+    [X OpAlt "aA|aaA" [X OpConcat "aA" [X OpChar "a" []; X OpChar "A" []];
+                       X OpConcat "aaA" [X OpChar "a" []; X OpChar "a" []; X OpChar "A" []]];
+     X OpString "i" []].
+Lemma suffix_factoring_under_fold_refuted :
+  simp_text t_suffix_fold = "(?i:a?aA)" /\ differ t_suffix_fold (simp_ast t_suffix_fold) "aaa" /\ avoids_defectsS t_suffix_fold = false.
+Proof. split; [|split]; [vm_compute; reflexivity|vm_compute; discriminate|vm_compute; reflexivity]. Qed.
